@@ -49,25 +49,25 @@ theorem colWF_dropna {c : Column} (h : ColWF c) : ColWF c.dropna :=
 theorem colWF_sameBag {c c' : Column} (hb : SameBag c c') (h : ColWF c) : ColWF c' :=
   fun x hx => h x (hb.perm.mem_iff.mpr hx)
 
-/-- `f` gives the same verdict on any two well-formed columns holding the same bag of cells -/
-def BagFn (f : Column → Bool) : Prop := ∀ c c', SameBag c c' → ColWF c → f c = f c'
+/-- `f` gives the same verdict on any two columns holding the same bag of cells -/
+def BagFn (f : Column → Bool) : Prop := ∀ c c', SameBag c c' → f c = f c'
 
 theorem bag_handleNulls {f : Column → Bool} (hf : BagFn f) : BagFn (handleNullsB f) := by
-  intro c c' h w
+  intro c c' h
   simp only [handleNullsB, sameBag_hasnans h, sameBag_empty (sameBag_dropna h),
-    hf _ _ (sameBag_dropna h) (colWF_dropna w), hf _ _ h w]
+    hf _ _ (sameBag_dropna h), hf _ _ h]
 
 theorem bag_notEmpty {f : Column → Bool} (hf : BagFn f) : BagFn (notEmptyB f) := by
-  intro c c' h w
-  simp only [notEmptyB, sameBag_empty h, hf _ _ h w]
+  intro c c' h
+  simp only [notEmptyB, sameBag_empty h, hf _ _ h]
 
 theorem bag_notSparse {f : Column → Bool} (hf : BagFn f) : BagFn (notSparseB f) := hf
 
 theorem bag_dtype (p : DKind → Bool) : BagFn (fun c => p c.dtype) := by
-  intro c c' h _; simp only [h.dtype]
+  intro c c' h; simp only [h.dtype]
 
 theorem bag_all (p : Cell → Bool) : BagFn (fun c => c.cells.all p) := by
-  intro c c' h _; exact perm_all p h.perm
+  intro c c' h; exact perm_all p h.perm
 
 /-- the early-exit test on a prefix is subsumed by the full scan that follows it -/
 theorem prefix_subsumed (p q : Cell → Bool) (k : Nat) (l : List Cell) :
@@ -82,7 +82,7 @@ theorem prefix_subsumed (p q : Cell → Bool) (k : Nat) (l : List Cell) :
     exact ⟨x, List.mem_of_mem_take hx, by simp [hpx]⟩
 
 theorem bag_instanceAttrs (p q : Cell → Bool) : BagFn (containsInstanceAttrs p q) := by
-  intro c c' h _
+  intro c c' h
   simp only [containsInstanceAttrs]
   rw [prefix_subsumed p q 1 c.cells, prefix_subsumed p q 1 c'.cells]
   exact perm_all _ h.perm
@@ -110,7 +110,7 @@ theorem isString_core (l : List Cell) :
 
 theorem bag_isString : BagFn isString := by
   apply bag_handleNulls
-  intro c c' h _
+  intro c c' h
   show (if !(c.cells.all (·.isStr)) then false else c.cells.all strEqTrue)
      = (if !(c'.cells.all (·.isStr)) then false else c'.cells.all strEqTrue)
   rw [isString_core, isString_core]
@@ -118,14 +118,14 @@ theorem bag_isString : BagFn isString := by
 
 theorem bag_stringContains : BagFn stringContains := by
   apply bag_notSparse; apply bag_notEmpty; apply bag_handleNulls
-  intro c c' h w
-  simp only [h.dtype, bag_isString c c' h w]
+  intro c c' h
+  simp only [h.dtype, bag_isString c c' h]
 
 /-- **L4 for membership**: every `contains_op` of the pandas backend is a function of the dtype
 and the bag of cells -/
 theorem containsB_bag (t : Ty) : BagFn (containsB t) := by
   cases t <;> simp only [containsB]
-  · intro _ _ _ _; rfl
+  · intro _ _ _; rfl
   · exact bag_stringContains
   · exact bag_notSparse (bag_handleNulls (bag_notEmpty (bag_dtype (fun d => d.isBool && !d.isCategorical))))
   · exact bag_notSparse (bag_notEmpty (bag_dtype _))
@@ -212,7 +212,7 @@ theorem rep_handleNulls {f : Column → Bool} (hf : RepFn f) : RepFn (handleNull
     ⟨rfl, by rw [dropna_cells]; simp only [repeatCol, dropna_cells]
              rw [filter_flatten_replicate]⟩
   have e1 : f (repeatCol c k).dropna = f c.dropna := by
-    rw [hf.1 _ _ hbag (colWF_dropna (colWF_repeat k w))]
+    rw [hf.1 _ _ hbag]
     exact hf.2 c.dropna k (colWF_dropna w)
   have e2 : (repeatCol c k).dropna.empty = c.dropna.empty := by
     rw [sameBag_empty hbag, empty_replicate]
@@ -222,7 +222,7 @@ theorem rep_isString : RepFn isString := by
   refine ⟨bag_isString, ?_⟩
   have core : RepFn (fun c => if !(c.cells.all (·.isStr)) then false else c.cells.all strEqTrue) := by
     refine ⟨?_, fun c k _ => ?_⟩
-    · intro c c' h _
+    · intro c c' h
       simp only []
       rw [isString_core, isString_core]
       exact perm_all _ h.perm
@@ -235,7 +235,7 @@ theorem rep_stringContains : RepFn stringContains := by
   have inner : RepFn (fun c => if c.dtype.isCategorical then false
       else if !c.dtype.isObject then c.dtype.isStringNonObject else isString c) := by
     refine ⟨?_, fun c k w => ?_⟩
-    · intro c c' h w; simp only [h.dtype, bag_isString c c' h w]
+    · intro c c' h; simp only [h.dtype, bag_isString c c' h]
     · have : (repeatCol c k).dtype = c.dtype := rfl
       simp only [this, rep_isString.2 c k w]
   exact rep_notEmpty (rep_handleNulls inner)
@@ -243,7 +243,7 @@ theorem rep_stringContains : RepFn stringContains := by
 /-- **k-fold repetition leaves every membership unchanged** -/
 theorem containsB_repeat (t : Ty) : RepFn (containsB t) := by
   cases t <;> simp only [containsB]
-  · exact ⟨fun _ _ _ _ => rfl, fun _ _ _ => rfl⟩
+  · exact ⟨fun _ _ _ => rfl, fun _ _ _ => rfl⟩
   · exact rep_stringContains
   · exact rep_handleNulls (rep_notEmpty (rep_dtype (fun d => d.isBool && !d.isCategorical)))
   · exact rep_notEmpty (rep_dtype _)
